@@ -336,7 +336,12 @@ async fn run_op(fs: &FileSystem, i: &In) -> Outcome {
             }
         }
         "list_objects" => {
-            let r = fs.list_objects(req(ListObjectsInput::builder().bucket(b).build().unwrap())).await;
+            // the key field carries the prefix of the listing (empty = none)
+            let mut inp = ListObjectsInput::builder().bucket(b).build().unwrap();
+            if !k.is_empty() {
+                inp.prefix = Some(k.to_owned());
+            }
+            let r = fs.list_objects(req(inp)).await;
             o.code = code_of(&r);
             if let Ok(r) = r {
                 for ob in r.output.contents.unwrap_or_default() {
@@ -345,7 +350,11 @@ async fn run_op(fs: &FileSystem, i: &In) -> Outcome {
             }
         }
         "list_objects_v2" => {
-            let r = fs.list_objects_v2(req(ListObjectsV2Input::builder().bucket(b).build().unwrap())).await;
+            let mut inp = ListObjectsV2Input::builder().bucket(b).build().unwrap();
+            if !k.is_empty() {
+                inp.prefix = Some(k.to_owned());
+            }
+            let r = fs.list_objects_v2(req(inp)).await;
             o.code = code_of(&r);
             if let Ok(r) = r {
                 for ob in r.output.contents.unwrap_or_default() {
@@ -608,6 +617,9 @@ fn generate(rng: &mut Rng, n: u64, tier: &str, emit: &mut dyn FnMut(Vec<String>)
         emit(mk("upload_part_copy", "bucket-a", "mp", "bucket-a", key, U1, 3, &[], "-", ""));
         emit(mk("complete_multipart_upload", "bucket-a", key, "", "", U1, 0, &[], "1", ""));
         emit(mk("delete_objects", "bucket-a", "", "", "", "", 0, &["dir/inner".to_owned(), key.clone()], "-", ""));
+        // the key alphabet as listing prefix: a listing must not enumerate (names, sizes) anything outside its bucket
+        emit(mk("list_objects", "bucket-a", key, "", "", "", 0, &[], "-", ""));
+        emit(mk("list_objects_v2", "bucket-a", key, "", "", "", 0, &[], "-", ""));
     }
     // ---- keys that spell the store's own absolute root path: `Path::join` REPLACES the bucket directory when its
     // right operand is absolute, and `absolutize_virtually` only checks "under the root" — so these are the keys
